@@ -43,7 +43,9 @@ EXTENDS TraceLogContract, SequencesExt
 CONSTANTS MaxEvents,    \* bound on the total number of recorded events (bounded instances)
           MaxDepth,     \* bound on the nesting depth of open begin events
           Ordered,      \* BOOLEAN: symmetry reduction - thread t+1 is created only after thread t was
-          Exits         \* BOOLEAN: threads may end before saveLog (FALSE: every thread lives until the end)
+          Exits,        \* BOOLEAN: threads may end before saveLog (FALSE: every thread lives until the end)
+          Hard          \* BOOLEAN: the first event of every thread carries a name from HardPool (text that needs care in JSON,
+                        \*          lengths around internal buffer sizes); the process name may be such a text as well
 
 VARIABLES rec, phase, prec, last
 vars == <<rec, phase, prec, last>>
@@ -58,7 +60,7 @@ Total == LET RECURSIVE Sum(_)
 \* Attributes of the next event of thread t in the bounded instances: a function of the thread and of the position,
 \* with names repeated inside a thread and different between threads (every begin, marker and counter event of a
 \* history is distinguishable from the events of the other threads), events with and without category, small and
-\* 31-bit counter values.
+\* large (up to 2^64 - 1) counter values.
 Pos(t)     == Len(rec[t])
 Of(base, t) == base \o ToString(t)
 BNames     == <<"frame", "render", "frame">>
@@ -68,7 +70,21 @@ BName(t)   == Of(BNames[(Pos(t) % 3) + 1], t)
 IName(t)   == Of(INames[((Pos(t) + t) % 2) + 1], t)
 CName(t)   == Of(CNamesPool[(Pos(t) % 2) + 1], t)
 CatOf(t)   == IF (Pos(t) + t) % 2 = 0 THEN "cat" ELSE ""
-ValOf(t)   == IF Pos(t) = 2 THEN 2147483647 ELSE 1000 * t + Pos(t)
+\* counter values: small ones and the neighbourhoods of 2^31, 2^32, 2^53 and 2^64 (numerals, see TraceLogContract!NoVal)
+BigVals    == <<"2147483647", "2147483648", "4294967295", "4294967296", "4294967297", "1000001", "9007199254740993",
+                "9223372036854775808", "18446744073709551615", "0", "65536">>
+ValOf(t)   == IF (Pos(t) + t) % 3 = 0 THEN ToString(1000 * t + Pos(t)) ELSE BigVals[((4 * Pos(t) + 3 * t) % Len(BigVals)) + 1]
+
+\* Names that need care.  The specification does not spell the texts (they would have to survive TLC's own JSON output): a
+\* name "@..." is a SYMBOL, the driver maps it to the text and maps the text it finds in the log back (injective):
+\*   @quote a"b   @quote-first "ab   @quote-last ab"   @backslash a\b   @winpath C:\temp\new   @trailing-backslash a\
+\*   @newline a<LF>b   @tab a<TAB>b   @ctrl1 <0x01>   @del a<0x7f>   @utf8 caf<c3 a9>   @slash a/b
+\*   @lenN   a text of exactly N characters
+EscNames == {"@quote", "@quote-first", "@quote-last", "@backslash", "@winpath", "@trailing-backslash", "@newline", "@tab", "@ctrl1",
+             "@del", "@utf8", "@slash"}
+LenNames == {"@len15", "@len16", "@len17", "@len255", "@len256", "@len257", "@len1023", "@len1024", "@len1025", "@len4097", "@len65537"}
+HardPool == EscNames \cup LenNames
+Uses(S)  == \E t \in Threads : \E i \in DOMAIN rec[t] : rec[t][i].name \in S \/ rec[t][i].cat \in S
 
 MayRecord(t) == phase[t] = "live" /\ Total < MaxEvents
 
@@ -92,19 +108,19 @@ ThreadExit(t) ==
 
 Begin(t, name, cat) ==
   /\ MayRecord(t) /\ Depth(t) < MaxDepth
-  /\ rec' = [rec EXCEPT ![t] = Append(@, Ev("B", name, cat, 0))]
+  /\ rec' = [rec EXCEPT ![t] = Append(@, Ev("B", name, cat, NoVal))]
   /\ UNCHANGED <<phase, prec>>
   /\ last' = [a |-> "Begin", arg |-> [t |-> t, name |-> name, cat |-> cat], exp |-> Void, cls |-> ""]
 
 End(t) ==
   /\ MayRecord(t) /\ Depth(t) > 0
-  /\ rec' = [rec EXCEPT ![t] = Append(@, Ev("E", "", "", 0))]
+  /\ rec' = [rec EXCEPT ![t] = Append(@, Ev("E", "", "", NoVal))]
   /\ UNCHANGED <<phase, prec>>
   /\ last' = [a |-> "End", arg |-> [t |-> t], exp |-> Void, cls |-> ""]
 
 Marker(t, name, cat) ==
   /\ MayRecord(t)
-  /\ rec' = [rec EXCEPT ![t] = Append(@, Ev("i", name, cat, 0))]
+  /\ rec' = [rec EXCEPT ![t] = Append(@, Ev("i", name, cat, NoVal))]
   /\ UNCHANGED <<phase, prec>>
   /\ last' = [a |-> "Marker", arg |-> [t |-> t, name |-> name, cat |-> cat], exp |-> Void, cls |-> ""]
 
@@ -123,16 +139,19 @@ SaveLog(pname) ==
   /\ UNCHANGED <<rec, phase, prec>>
   /\ last' = [a |-> "SaveLog", arg |-> [pname |-> pname],
               exp |-> [json |-> "wellformed", threads |-> Visible(rec), alt |-> SetToSeq(Groupings(rec, prec))],
-              cls |-> (IF Active(rec) = {} THEN "log=empty" ELSE "log=nonempty") \o (IF pname = "" THEN ",pname=none" ELSE ",pname=given")
-                      \o (IF Sequential(rec, prec) THEN ",threads=sequential" ELSE "")]
+              cls |-> IF pname \in EscNames THEN "pname=escaping"
+                      ELSE IF Uses(EscNames) THEN "names=escaping"
+                      ELSE (IF Active(rec) = {} THEN "log=empty" ELSE "log=nonempty") \o (IF pname = "" THEN ",pname=none" ELSE ",pname=given")
+                           \o (IF Sequential(rec, prec) THEN ",threads=sequential" ELSE "") \o (IF Uses(LenNames) THEN ",names=long" ELSE "")]
 
 Init == /\ rec = [t \in Threads |-> <<>>] /\ phase = [t \in Threads |-> "new"] /\ prec = {}
         /\ last = [a |-> "Init", arg |-> NoArg, exp |-> Void, cls |-> ""]
 
 Next ==
   \/ \E t \in Threads : ThreadStart(t) \/ ThreadExit(t)
-  \/ \E t \in Threads : Begin(t, BName(t), CatOf(t)) \/ End(t) \/ Marker(t, IName(t), CatOf(t)) \/ Counter(t, CName(t), ValOf(t))
-  \/ \E pn \in {"", "proc"} : SaveLog(pn)
+  \/ \E t \in Threads : (~Hard \/ Pos(t) > 0) /\ (Begin(t, BName(t), CatOf(t)) \/ End(t) \/ Marker(t, IName(t), CatOf(t)) \/ Counter(t, CName(t), ValOf(t)))
+  \/ \E t \in Threads, n \in HardPool : Hard /\ Pos(t) = 0 /\ (Marker(t, n, "") \/ Begin(t, n, n) \/ Counter(t, n, ValOf(t)))
+  \/ \E pn \in {"", "proc"} \cup (IF Hard THEN {"@quote", "@winpath"} ELSE {}) : SaveLog(pn)
 
 Spec == Init /\ [][Next]_vars
 
